@@ -968,7 +968,9 @@ func (r *Runner) Run(ctx context.Context, node syntax.Node) error {
 	if code := r.exit.code; code != 0 {
 		return ExitStatus(code)
 	}
-	return nil
+	// A program cut short by a cancelled context did not succeed,
+	// even if the command that the cancellation unblocked was its last one.
+	return ctx.Err()
 }
 
 // Exited reports whether the last Run call should exit an entire shell. This
